@@ -17,7 +17,7 @@ from .model import call_name, dotted, unparse
 
 STATE_CTORS = {"StateVector", "Orbit", "cls", "self.__class__", "self.tle.__class__", "Ephem"}
 MUTATORS = {"append", "extend", "insert", "pop", "remove", "clear", "update", "sort", "reverse", "setdefault", "popitem", "__setitem__"}
-LONG_LIVED = ("self.orbit", "self._orbit", "self.tle", "self._orbits")
+LONG_LIVED = ("self.orbit", "self._orbit", "self.tle", "self._orbits", "self.mask")
 
 
 def per_item_copy_comprehension(node):
@@ -63,6 +63,14 @@ class Fresh:
                     out.add(("alias", d[1]))
                 elif d[0] in ("assign",):
                     out |= self.classify(d[1], seen)
+                elif d[0] == "unpack":
+                    v, idx = d[1], d[2]
+                    if isinstance(v, (ast.Tuple, ast.List)) and idx is not None and idx < len(v.elts):
+                        out |= self.classify(v.elts[idx], seen)
+                    else:
+                        # element of an array / state: a view of its buffer when the source is long-lived
+                        for x in self.classify(v, seen):
+                            out.add("fresh" if x == "fresh" else ("view", x[1]) if x[0] in ("alias", "view") else ("shares", x[1]))
                 elif d[0] == "aug":
                     for p in d[4]:
                         if p[0] == "assign":
@@ -72,7 +80,7 @@ class Fresh:
                 elif d[0] == "for":
                     inner = self.classify(d[1], seen)
                     for v in inner:
-                        out.add(("alias", f"element of {v[1]}") if v != "fresh" and v[0] == "alias" else "fresh" if v == "fresh" else ("shares", v[1]))
+                        out.add(("alias", f"element of {v[1]}") if v != "fresh" and v[0] in ("alias", "view") else "fresh" if v == "fresh" else ("shares", v[1]))
                     if not inner:
                         out.add("fresh")
                 else:
@@ -84,9 +92,17 @@ class Fresh:
                 return {("alias", t)}
             return {"fresh"}
         if isinstance(node, ast.Subscript):
-            # a slice of a state is a view carrying a shallow copy of _data
+            # a slice of an array is a VIEW: same buffer (element stores write through), own shallow copy of _data
             base = self.classify(node.value, seen)
-            return {("shares", v[1]) if v != "fresh" else "fresh" for v in base}
+            out = set()
+            for v in base:
+                if v == "fresh":
+                    out.add("fresh")
+                elif v[0] in ("alias", "view"):
+                    out.add(("view", v[1]))
+                else:
+                    out.add(("shares", v[1]))
+            return out
         if isinstance(node, ast.BinOp):
             out = set()
             for side in (node.left, node.right):
